@@ -334,13 +334,13 @@ func (m *Model) sweep(r *ev.Report, v int, withMulEverywhere bool) {
 
 		if s%64 == 0 {
 			if g := secp256k1.VerifAllGlobals(); g != globals {
-				r.Violation("globals/changed", fmt.Sprintf("package-level state changed: %s -> %s", globals, g), Case{"op": "globals"})
+				r.PackageState("globals/changed", fmt.Sprintf("package-level state changed: %s -> %s", globals, g), Case{"op": "globals"})
 			}
 		}
 	})
 
 	if g := secp256k1.VerifAllGlobals(); g != globals {
-		r.Violation("globals/changed", fmt.Sprintf("package-level state changed: %s -> %s", globals, g), Case{"op": "globals"})
+		r.PackageState("globals/changed", fmt.Sprintf("package-level state changed: %s -> %s", globals, g), Case{"op": "globals"})
 	}
 
 	r.States.Add(int64(total))
